@@ -60,3 +60,36 @@ def overlapping(frames: List[tuple], name: str) -> Optional[tuple]:
         elif th in inside:
             inside.remove(th)
     return None
+
+
+def unit_result(pid: str, module: Any, variant: str, bound: int, describe: Callable[[str], str]) -> dict:
+    """Runs module.explore(variant, bound) and packs the outcome as a work-unit result of the runner."""
+    import re
+
+    res = dict(states=0, transitions=0, executions=0, evaluations=0, distinct=[], violations=[], samples=[], caps=[])
+    results, n, capped = module.explore(variant, bound)
+    res["executions"] += n
+    res["evaluations"] += n
+    if capped:
+        res["caps"].append("max_execs per preemptive variant")
+    outcomes = set()
+    for taken, out in results:
+        outcomes.add(out["key"])
+        res["distinct"].append(hash(("preempt", variant, tuple(out["schedule"]))))
+        for clause, detail in out["bad"]:
+            res["violations"].append(dict(
+                signature=f"{pid}|{clause}|sync-threads", clause=clause,
+                what=f"sync engine, {describe(variant)}: {clause}: {detail}; {out['preemptions']} preemption(s), "
+                     f"schedule {[re.sub(r'::[0-9a-f-]+', '', x) for x in out['schedule']]}",
+                size=out["preemptions"] * 1000 + len(taken),
+                replay=dict(engine="preempt", variant=variant, bound=bound, schedule=taken)))
+    res["samples"].append(dict(engine="sync-threads", variant=variant, preemption_bound=bound, schedules=n, distinct_outcomes=len(outcomes)))
+    return res
+
+
+def replay_unit(pid: str, module: Any, payload: dict) -> list:
+    out = module.run(payload["variant"], e2.Choices(payload["schedule"]), payload["bound"])
+    print("  observed order:", out["order"])
+    for c, d in out["bad"]:
+        print("  ", c, d)
+    return [dict(signature=f"{pid}|{c}|sync-threads", what=d) for c, d in out["bad"]]
